@@ -87,6 +87,8 @@ def cxn_group(gid, h, scale, values, xsd=False):
                 xf.set(attr, "1")
             elif attr in xf.attrib:
                 del xf.attrib[attr]
+        if a0.get("rot"):
+            xf.set("rot", str(a0["rot"]))
         c = b.slide.shapes[-1]
     else:
         c = b.slide.shapes.add_connector(kind, a0["bx"], a0["by"], a0["ex"], a0["ey"])
